@@ -1,7 +1,103 @@
 package main
 
-import "fmt"
+import (
+	"encoding/json"
+	"flag"
+	"fmt"
+	"os"
+	"strings"
+
+	"verif/harness/drv"
+)
 
 func runExtra(cmd string, args []string) error {
+	switch cmd {
+	case "random":
+		return cmdRandom(args)
+	case "runplans":
+		return cmdRunPlans(args)
+	}
+
 	return fmt.Errorf("unknown command %q", cmd)
+}
+
+func cmdRandom(args []string) error {
+	fl := flag.NewFlagSet("random", flag.ExitOnError)
+	target := fl.String("target", "osfs", "target the generator executes on")
+	seed := fl.Int64("seed", 1, "seed")
+	n := fl.Int("n", 10, "number of plans")
+	ln := fl.Int("len", 100, "calls per plan")
+	names := fl.String("names", "a,b,c", "universe of names")
+	depth := fl.Int("depth", 3, "depth below the work directory")
+	sym := fl.Bool("sym", false, "symbolic links")
+	own := fl.Bool("own", false, "chown")
+	handles := fl.Bool("handles", false, "handle operations")
+	unclean := fl.Bool("unclean", false, "unclean spellings")
+	plans := fl.String("plans", "", "output: plans")
+	trace := fl.String("trace", "", "output: trace of the generating run")
+	_ = fl.Parse(args)
+
+	pf, err := os.Create(*plans)
+	if err != nil {
+		return err
+	}
+	defer pf.Close()
+
+	tf, err := os.Create(*trace)
+	if err != nil {
+		return err
+	}
+	defer tf.Close()
+
+	f, err := drv.NewFactory(*target)
+	if err != nil {
+		return err
+	}
+
+	drv.InstallSelfDeadlockHook()
+
+	o := drv.GenOpts{Names: strings.Split(*names, ","), Depth: *depth, Len: *ln, Sym: *sym, Own: *own, Handles: *handles, Unclean: *unclean}
+
+	return drv.GenerateOn(f, *seed, *n, o, pf, tf)
+}
+
+func cmdRunPlans(args []string) error {
+	fl := flag.NewFlagSet("runplans", flag.ExitOnError)
+	target := fl.String("target", "memfs", "target")
+	plans := fl.String("plans", "", "plans")
+	trace := fl.String("trace", "", "output: trace")
+	names := fl.String("names", "a,b,c", "universe of names")
+	shard := fl.Int("shard", 0, "shard")
+	nshard := fl.Int("nshard", 1, "shards")
+	unclean := fl.Int64("unclean", 0, "seed for unclean respelling of path operands (0 = off)")
+	_ = fl.Parse(args)
+
+	pf, err := os.Open(*plans)
+	if err != nil {
+		return err
+	}
+	defer pf.Close()
+
+	tf, err := os.Create(*trace)
+	if err != nil {
+		return err
+	}
+	defer tf.Close()
+
+	f, err := drv.NewFactory(*target)
+	if err != nil {
+		return err
+	}
+
+	drv.InstallSelfDeadlockHook()
+
+	n, err := drv.RunPlans(f, pf, tf, strings.Split(*names, ","), *shard, *nshard, *unclean)
+	if err != nil {
+		return err
+	}
+
+	b, _ := json.Marshal(map[string]any{"target": *target, "events": n})
+	fmt.Println(string(b))
+
+	return nil
 }
